@@ -859,3 +859,215 @@ Proof.
     apply qsum_map_ext. intros [r w] I. simpl. rewrite (ft_w_own t r w D I). reflexivity.
   - apply (marg_fold_distinct (fun e => restrict ks (fst e)) (fun e => ft_w t (fst e))). exact I.
 Qed.
+
+(* ================================================================== mixture *)
+Lemma rget_in_wf k v r : row_wf r -> In (k, v) r -> rget k r = Some v.
+Proof.
+  unfold row_wf. induction r as [|[k0 v0] t IH]; simpl; intros W I; [destruct I|].
+  inversion W as [|? ? Hn Hd]; subst. destruct I as [I|I].
+  - inversion I; subst. now rewrite Nat.eqb_refl.
+  - destruct (Nat.eqb_spec k k0) as [->|Hne]; [|auto].
+    exfalso; apply Hn. change k0 with (fst (k0, v)). now apply in_map.
+Qed.
+
+Section Mix.
+Variables (K : list key) (t1 t2 : table).
+Hypothesis O1 : table_over K t1.
+Hypothesis O2 : table_over K t2.
+
+Definition mixW (r : row) : Q := ft_w t1 r + ft_w t2 r.
+
+Lemma mixW_req r r' : req r r' -> mixW r = mixW r'.
+Proof. intro E. unfold mixW. now rewrite (ft_w_req t1 _ _ E), (ft_w_req t2 _ _ E). Qed.
+
+Lemma same_keys_match a b : In a (ft_rows t1) -> In b (ft_rows t2) ->
+  (dict_match a b = true <-> req a b).
+Proof.
+  intros Ia Ib. destruct (O1 a Ia) as [Ha Wa]. destruct (O2 b Ib) as [Hb Wb]. split.
+  - intros M k. destruct (in_dec Nat.eq_dec k K) as [I|N].
+    + destruct (rget_in_keys k a (proj1 (Ha k) I)) as [v G].
+      destruct (rget_in_keys k b (proj1 (Hb k) I)) as [v' G'].
+      rewrite G, G'. f_equal. eapply dict_match_agree; eauto.
+    + assert (rget k a = None) by (apply rget_none; intro; apply N, Ha; auto).
+      assert (rget k b = None) by (apply rget_none; intro; apply N, Hb; auto). congruence.
+  - intro E. apply dict_match_spec. intros k v v' I G.
+    pose proof (rget_in_wf k v b Wb I) as G'. rewrite E in G. congruence.
+Qed.
+
+Lemma merge_req_l a b : row_wf b -> req a b -> req (dict_merge a b) a.
+Proof.
+  intros Wb E k. rewrite rget_merge by assumption. rewrite <- E. destruct (rget k a); reflexivity.
+Qed.
+
+Definition covered (st : mixst) (x : row) : Prop :=
+  row_mem x (mx_matched st) = true \/ In x (mx_unmatched st).
+
+Record mix_inv (seen : list (row * row)) (st : mixst) : Prop := {
+  mi_distinct : rows_distinct (ft_rows (mx_tab st));
+  mi_weight : forall r w, In (r, w) (mx_tab st) -> w = mixW r /\ ~ w == 0;
+  mi_matched : forall m, In m (mx_matched st) -> row_mem m (ft_rows (mx_tab st)) = true \/ mixW m == 0;
+  mi_covered : forall p, In p seen -> covered st (fst p) /\ covered st (snd p) }.
+
+Lemma covered_mono st st' x :
+  (forall y, row_mem y (mx_matched st) = true -> row_mem y (mx_matched st') = true) ->
+  (forall y, In y (mx_unmatched st) -> In y (mx_unmatched st')) ->
+  covered st x -> covered st' x.
+Proof. intros A B [C|C]; [left | right]; auto. Qed.
+
+Lemma mix_step_inv seen st p : In p (ppairs t1 t2) ->
+  mix_inv seen st -> mix_inv (seen ++ [p]) (mix_step t1 t2 st p).
+Proof.
+  intros Ip [D Wt Mt Cv]. destruct p as [a b]. apply in_prod_iff in Ip. destruct Ip as [Ia Ib].
+  destruct (O2 b Ib) as [Hb Wb].
+  unfold mix_step. simpl fst; simpl snd.
+  destruct (dict_match a b) eqn:M.
+  - pose proof (proj1 (same_keys_match a b Ia Ib) M) as E.
+    pose proof (merge_req_l a b Wb E) as Ema.
+    assert (Emb : req (dict_merge a b) b) by (rewrite Ema; exact E).
+    assert (MonoM : forall l y, row_mem y l = true -> row_mem y (l ++ [a; b]) = true).
+    { intros l y Hy. rewrite row_mem_app, Hy. reflexivity. }
+    assert (CovNew : forall tab unm x, (x = a \/ x = b) -> covered (mkMix tab (mx_matched st ++ [a; b]) unm) x).
+    { intros tab unm x Hx. left. simpl. rewrite row_mem_app. apply orb_true_iff. right.
+      destruct Hx as [->| ->]; simpl; rewrite row_eqb_refl; simpl; auto using orb_true_r. }
+    assert (CovAll : forall tab, forall q, In q (seen ++ [(a, b)]) ->
+              covered (mkMix tab (mx_matched st ++ [a; b]) (mx_unmatched st)) (fst q) /\
+              covered (mkMix tab (mx_matched st ++ [a; b]) (mx_unmatched st)) (snd q)).
+    { intros tab q Iq. apply in_app_or in Iq. destruct Iq as [Iq|[<-|[]]].
+      - destruct (Cv q Iq) as [C1 C2]. split; (eapply covered_mono; [| |eassumption]); simpl; auto.
+      - simpl. split; apply CovNew; auto. }
+    destruct (row_mem (dict_merge a b) (ft_rows (mx_tab st))) eqn:Mem.
+    + split; simpl; auto.
+      intros m Im. apply in_app_or in Im. destruct Im as [Im|[<-|[<-|[]]]]; auto; left.
+      * rewrite <- (row_mem_req _ _ _ Ema). exact Mem.
+      * rewrite <- (row_mem_req _ _ _ Emb). exact Mem.
+    + destruct (qzero (ft_w t1 a + ft_w t2 b)) eqn:Zr.
+      * apply qzero_spec in Zr. split; simpl; auto.
+        intros m Im. apply in_app_or in Im. destruct Im as [Im|[<-|[<-|[]]]]; auto; right; unfold mixW.
+        -- rewrite (ft_w_req t2 a b E). exact Zr.
+        -- rewrite (ft_w_req t1 b a (req_sym _ _ E)). exact Zr.
+      * apply qzero_false in Zr. split; simpl.
+        -- rewrite ft_rows_app. apply rows_distinct_app. repeat split; auto.
+           intros r I. simpl. rewrite orb_false_r, row_eqb_sym. apply (proj1 (row_mem_false _ _) Mem); auto.
+        -- intros r w I. apply in_app_or in I. destruct I as [I|[I|[]]]; [auto|].
+           inversion I; subst. split; [|exact Zr]. unfold mixW.
+           now rewrite (ft_w_req t1 _ _ Ema), (ft_w_req t2 _ _ Emb).
+        -- intros m Im. rewrite ft_rows_app, row_mem_app.
+           apply in_app_or in Im. destruct Im as [Im|[<-|[<-|[]]]].
+           ++ destruct (Mt m Im) as [X|X]; [left; rewrite X; reflexivity | right; exact X].
+           ++ left. apply orb_true_iff. right. simpl. rewrite orb_false_r, <- (row_eqb_req_l _ _ _ Ema).
+              apply row_eqb_refl.
+           ++ left. apply orb_true_iff. right. simpl. rewrite orb_false_r, <- (row_eqb_req_l _ _ _ Emb).
+              apply row_eqb_refl.
+        -- apply CovAll.
+  - split; simpl; auto.
+    intros q Iq. apply in_app_or in Iq. destruct Iq as [Iq|[<-|[]]].
+    + destruct (Cv q Iq) as [C1 C2]. split; (eapply covered_mono; [| |eassumption]); simpl; auto;
+        intros; apply in_or_app; now left.
+    + simpl. split; right; simpl; apply in_or_app; right; simpl; auto.
+Qed.
+
+Lemma mix_fold_inv ps : forall seen st, (forall p, In p ps -> In p (ppairs t1 t2)) ->
+  mix_inv seen st -> mix_inv (seen ++ ps) (fold_left (mix_step t1 t2) ps st).
+Proof.
+  induction ps as [|p ps IH]; intros seen st Sub H; simpl.
+  - now rewrite app_nil_r.
+  - replace (seen ++ p :: ps) with ((seen ++ [p]) ++ ps) by (rewrite <- app_assoc; reflexivity).
+    apply IH; [intros; apply Sub; now right|]. apply mix_step_inv; [apply Sub; now left | exact H].
+Qed.
+
+(* second loop *)
+Record outer_inv (matched done : list row) (acc : table) : Prop := {
+  oi_distinct : rows_distinct (ft_rows acc);
+  oi_weight : forall r w, In (r, w) acc -> w = mixW r /\ ~ w == 0;
+  oi_matched : forall m, In m matched -> row_mem m (ft_rows acc) = true \/ mixW m == 0;
+  oi_done : forall u, In u done -> row_mem u (ft_rows acc) = true \/ mixW u == 0 }.
+
+Lemma mix_outer_inv matched done acc i :
+  outer_inv matched done acc -> outer_inv matched (done ++ [i]) (mix_outer t1 t2 matched acc i).
+Proof.
+  intros [D Wt Mt Dn]. unfold mix_outer. fold (mixW i).
+  destruct (row_mem i matched) eqn:M1; simpl.
+  - split; auto. intros u Iu. apply in_app_or in Iu. destruct Iu as [Iu|[<-|[]]]; auto.
+    apply row_mem_spec in M1. destruct M1 as [m [Im E]].
+    destruct (Mt m Im) as [X|X]; [left; now rewrite (row_mem_req _ _ _ E) | right; now rewrite (mixW_req _ _ E)].
+  - destruct (row_mem i (ft_rows acc)) eqn:M2; simpl.
+    + split; auto. intros u Iu. apply in_app_or in Iu. destruct Iu as [Iu|[<-|[]]]; auto.
+    + destruct (qzero (mixW i)) eqn:Zr.
+      * apply qzero_spec in Zr. split; auto.
+        intros u Iu. apply in_app_or in Iu. destruct Iu as [Iu|[<-|[]]]; auto.
+      * apply qzero_false in Zr. split.
+        -- rewrite ft_rows_app. apply rows_distinct_app. repeat split; auto.
+           intros r I. simpl. rewrite orb_false_r, row_eqb_sym. apply (proj1 (row_mem_false _ _) M2); auto.
+        -- intros r w I. apply in_app_or in I. destruct I as [I|[I|[]]]; [auto|]. inversion I; subst. auto.
+        -- intros m Im. rewrite ft_rows_app, row_mem_app.
+           destruct (Mt m Im) as [X|X]; [left; rewrite X; reflexivity | right; exact X].
+        -- intros u Iu. rewrite ft_rows_app, row_mem_app. apply in_app_or in Iu. destruct Iu as [Iu|[<-|[]]].
+           ++ destruct (Dn u Iu) as [X|X]; [left; rewrite X; reflexivity | right; exact X].
+           ++ left. simpl. rewrite row_eqb_refl. simpl. apply orb_true_r.
+Qed.
+
+Lemma mix_outer_fold matched us : forall done acc,
+  outer_inv matched done acc -> outer_inv matched (done ++ us) (fold_left (mix_outer t1 t2 matched) us acc).
+Proof.
+  induction us as [|u us IH]; intros done acc H; simpl.
+  - now rewrite app_nil_r.
+  - replace (done ++ u :: us) with ((done ++ [u]) ++ us) by (rewrite <- app_assoc; reflexivity).
+    apply IH. now apply mix_outer_inv.
+Qed.
+
+(* MIXTURE OF TWO TABLES OVER THE SAME VARIABLES ADDS THEIR WEIGHTS ROW BY ROW *)
+Theorem mix_adds_thm :
+  (forall r, ft_w (ft_mix t1 t2) r == ft_w t1 r + ft_w t2 r) /\
+  (t1 <> [] -> t2 <> [] ->
+   rows_distinct (ft_rows (ft_mix t1 t2)) /\ forall r w, In (r, w) (ft_mix t1 t2) -> ~ w == 0).
+Proof.
+  destruct t1 as [|e1 t1'] eqn:Et1; [split; [intro r; simpl; destruct t2; simpl; ring | congruence]|].
+  destruct t2 as [|e2 t2'] eqn:Et2; [split; [intro r; simpl; ring | congruence]|].
+  rewrite <- Et1, <- Et2 in *.
+  assert (Emix : ft_mix t1 t2 =
+    let st := fold_left (mix_step t1 t2) (ppairs t1 t2) (mkMix [] [] []) in
+    fold_left (mix_outer t1 t2 (mx_matched st)) (mx_unmatched st) (mx_tab st)).
+  { rewrite Et1, Et2. reflexivity. }
+  set (st := fold_left (mix_step t1 t2) (ppairs t1 t2) (mkMix [] [] [])) in *.
+  assert (H1 : mix_inv (ppairs t1 t2) st).
+  { change (ppairs t1 t2) with ([] ++ ppairs t1 t2) at 1. apply mix_fold_inv; [auto|].
+    split; simpl; [exact I | intros r w [] | intros m [] | intros p []]. }
+  destruct H1 as [D Wt Mt Cv].
+  assert (H2 : outer_inv (mx_matched st) (mx_unmatched st) (ft_mix t1 t2)).
+  { rewrite Emix. simpl. change (mx_unmatched st) with ([] ++ mx_unmatched st) at 1.
+    apply mix_outer_fold. split; auto. intros u []. }
+  destruct H2 as [D' Wt' Mt' Dn'].
+  split.
+  - intro r. fold (mixW r).
+    destruct (row_mem r (ft_rows (ft_mix t1 t2))) eqn:Mem.
+    + apply row_mem_spec in Mem. destruct Mem as [r' [I E]].
+      apply in_map_iff in I. destruct I as [[r0 w] [<- I]]. simpl in E.
+      rewrite (ft_w_req _ _ _ E), (ft_w_own _ _ _ D' I), (mixW_req _ _ E).
+      destruct (Wt' r0 w I) as [-> _]. reflexivity.
+    + rewrite (ft_w_absent _ _ Mem).
+      assert (Key : forall x, req r x -> (In x (ft_rows t1) \/ In x (ft_rows t2)) -> mixW r == 0).
+      { intros x E Ix.
+        assert (Cx : covered st x).
+        { destruct Ix as [Ix|Ix].
+          - destruct (ft_rows t2) as [|b0 R2] eqn:ER2; [rewrite Et2 in ER2; discriminate|].
+            assert (Ip : In (x, b0) (ppairs t1 t2)) by (unfold ppairs; rewrite ER2; apply in_prod_iff; split; [auto | now left]).
+            exact (proj1 (Cv _ Ip)).
+          - destruct (ft_rows t1) as [|a0 R1] eqn:ER1; [rewrite Et1 in ER1; discriminate|].
+            assert (Ip : In (a0, x) (ppairs t1 t2)) by (unfold ppairs; rewrite ER1; apply in_prod_iff; split; [now left | auto]).
+            exact (proj2 (Cv _ Ip)). }
+        rewrite (mixW_req _ _ E).
+        destruct Cx as [Cx|Cx].
+        - apply row_mem_spec in Cx. destruct Cx as [m [Im Em]].
+          destruct (Mt' m Im) as [X|X].
+          + rewrite <- (row_mem_req _ _ _ Em), <- (row_mem_req _ _ _ E) in X. congruence.
+          + now rewrite (mixW_req _ _ Em).
+        - destruct (Dn' x Cx) as [X|X]; [|exact X].
+          rewrite <- (row_mem_req _ _ _ E) in X. congruence. }
+      destruct (row_mem r (ft_rows t1)) eqn:M1.
+      * apply row_mem_spec in M1. destruct M1 as [x [Ix E]]. symmetry. apply (Key x E). now left.
+      * destruct (row_mem r (ft_rows t2)) eqn:M2.
+        -- apply row_mem_spec in M2. destruct M2 as [x [Ix E]]. symmetry. apply (Key x E). now right.
+        -- unfold mixW. rewrite (ft_w_absent _ _ M1), (ft_w_absent _ _ M2). ring.
+  - intros _ _. split; [exact D'|]. intros r w I. exact (proj2 (Wt' r w I)).
+Qed.
+End Mix.
